@@ -405,6 +405,10 @@ class World:
     def _solve(self, act, st, step):
         fault = step.get("fault")
         self.seam.mode = step.get("mode", "stub")
+        if self.seam.mode == "real" and (act.spec.method or {}).get("intg", "rk") not in ("rk", "expl_euler"):
+            self.seam.mode = "stub"  # (the method may have changed since the step was generated; see the scheduler)
+            self.probe("real_solve_downgraded_builtin_integrator")
+        ran_real = self.seam.mode == "real"
         if fault == "cb_raise":
             # the user's callback raises in the middle of a real solve
             act.hidden["cb_raise_at"] = step.get("at", 1)
@@ -439,7 +443,7 @@ class World:
             st["ever"] = True
             if fault:
                 self.fault("solver_" + fault)
-            elif step.get("mode") == "real" and not st.get("tainted"):
+            elif ran_real and not st.get("tainted"):
                 self.compare_real_solve(act, st, step, out)
         else:
             st["ever"] = True  # a transcription was at least attempted
@@ -832,7 +836,9 @@ class Scheduler:
             return d
         if k == "solve":
             d = {"op": "solve", "a": a, "how": G.pick(r, ["solve", "solve", "solve_limited"])}
-            if cfg["solve_mode_real"] and r.random() < 0.6:
+            # the real solver never runs on an NLP that contains a built-in integrator (cvodes / idas / collocation):
+            # ipopt on such problems crashed inside CasADi (segmentation fault), which no simulator can survive
+            if cfg["solve_mode_real"] and r.random() < 0.6 and (sp.method or {}).get("intg", "rk") in ("rk", "expl_euler"):
                 d["mode"] = "real"
             if r.random() < cfg["p_fault"]:
                 d["fault"] = G.pick(r, ["fail_before", "fail_after", "interrupt"])
